@@ -75,6 +75,11 @@ def inline_locals(fn_node: ast.AST, expr: ast.AST, depth: int = 4, keep_calls: b
     for n in ast.walk(fn_node):
         if isinstance(n, ast.Assign) and len(n.targets) == 1 and isinstance(n.targets[0], ast.Name):
             assigns.setdefault(n.targets[0].id, []).append(n.value)
+        elif isinstance(n, ast.Assign):
+            for t in n.targets:
+                for x in ast.walk(t):
+                    if isinstance(x, ast.Name) and isinstance(x.ctx, ast.Store):
+                        assigns.setdefault(x.id, []).append(None)  # tuple / multiple targets: not inlinable
         elif isinstance(n, (ast.AugAssign, ast.AnnAssign)) and isinstance(n.target, ast.Name):
             assigns.setdefault(n.target.id, []).append(None)
         elif isinstance(n, (ast.For, ast.comprehension)):
